@@ -292,9 +292,24 @@ def run(ctx):
     light = ('const1', 'world', 'access', 'copy')
     deep, shallow = (3, 2) if ctx.quick else (4, 3)
     units = [(k, deep, budget, light, [k2], None) for k in light if k != 'copy' for k2 in light]
-    units += [(k, shallow, budget, KINDS, [k2], None) for k in KINDS if k != 'copy' for k2 in KINDS
-              if 'const2' in (k, k2) and (k, k2) != ('const2', 'const2')]
-    units += [('const2', shallow, budget, KINDS, ['const2'], case) for case in range(5)]
+    if ctx.quick:
+        units += [(k, shallow, budget, KINDS, [k2], None) for k in KINDS if k != 'copy' for k2 in KINDS
+                  if 'const2' in (k, k2) and (k, k2) != ('const2', 'const2')]
+        units += [('const2', shallow, budget, KINDS, ['const2'], case) for case in range(5)]
+    else:
+        # three steps with two-constant sentences.  Two constant-bearing steps followed by a third
+        # constant-bearing one do not exhaust within the budget (measured: > 80 000 paths per unit):
+        # there the third step is a world, an access node or a copy; every unit is one third-step kind.
+        heavy = {('const2', 'const2'), ('const1', 'const2'), ('const2', 'const1')}
+        for k in KINDS:
+            for k2 in KINDS:
+                if k == 'copy' or 'const2' not in (k, k2):
+                    continue
+                thirds = ('world', 'access', 'copy') if (k, k2) in heavy else KINDS
+                cases = range(5) if (k, k2) == ('const2', 'const2') else (None,)
+                for k3 in thirds:
+                    for case in cases:
+                        units.append((k, shallow, budget, [k3], [k2], case))
     units.sort(key=lambda u: (u[0], u[4]) != ('const2', ['const2']))
     from pytableaux.logics import registry
     registry.import_all()
@@ -345,6 +360,8 @@ def run(ctx):
         witness_rule_cases=witness_cases,
         bounds=dict(history_length=f'{n_steps} steps with one-constant sentences, {n_steps - 1} with two-constant sentences',
                     constants_per_sentence='<=2',
+                    thorough_exception='after two constant-bearing steps (const2>const2, const1>const2, '
+                                       'const2>const1) the third step is a world, an access node or a copy',
                     index='0..3', subscript='>=0 (unbounded)', worlds='>=0 (unbounded)',
                     copies='any step may copy any live branch'),
         solver=dict(queries=queries, solver_time_s=round(st_time, 2)),
